@@ -21,6 +21,12 @@ def plan(tier):
         {"kind": "c09", "cfg": lc.cfg(d=2, t=0), "count": n // 2, "maxops": mo, "faults": f},
         {"kind": "c09", "cfg": lc.cfg(d=2, t=1, pocca=1, pocma=1, pocs=1, socc=1), "count": n // 2, "maxops": mo, "faults": f},
         {"kind": "c09", "cfg": lc.cfg(d=2, t=1, pmr=1), "count": n // 3, "maxops": mo, "faults": f},
+        # assignment through views (row = row, view = view, elements() = elements(); named, temporary and moved forms)
+        # under fault injection; element kind 4: noexcept move assignment, throwing copy assignment
+        {"kind": "c09v", "cfg": lc.cfg(d=2, t=4), "count": n // 2, "maxops": mo, "faults": f},
+        {"kind": "c09v", "cfg": lc.cfg(d=3, t=4), "count": n // 4, "maxops": mo, "faults": f},
+        {"kind": "c09v", "cfg": lc.cfg(d=2, t=1), "count": n // 4, "maxops": mo, "faults": f},
+        {"kind": "c09", "cfg": lc.cfg(d=2, t=4), "count": n // 4, "maxops": mo, "faults": f},
     ]
 
 
@@ -36,8 +42,12 @@ def run(tier, seed, replay=None):
              "conversions) and then once per injection point k = 1..K (at most 40 per history in the quick tier: first, last "
              "and random ones); the k-th fallible event throws; after the exception every array is read back (extensions, "
              "elements, block, allocator), the history continues (operations whose arrays no longer exist are skipped "
-             "identically on both sides) and everything is destroyed; non-trivial = at least 4 operations; distinct by hash "
-             "of (history, k)",
-        not_exercised=["two faults in one history", "exceptions from default construction", "rank 0 and 4"],
+             "identically on both sides) and everything is destroyed; assignment through views (view = view with four "
+             "forms: named = lvalue, named = rvalue of the same type, temporary on the left, elements() = elements(); row = "
+             "row with three forms) is a history operation, with an element type whose move assignment is noexcept and whose "
+             "copy assignment throws; std::terminate in the harness child is a violation (the exception did not reach the "
+             "caller); non-trivial = at least 4 operations; distinct by hash of (history, k)",
+        not_exercised=["two faults in one history", "exceptions from default construction", "rank 0 and 4",
+                       "assignment between views of the SAME array (overlap)"],
         assumptions=["single injection point per run", "default construction of the element type does not throw"])
     return res.finish()
